@@ -356,7 +356,7 @@ pub fn prop() -> Prop<PolicyCase> {
             "trigger evaluation after a restart uses the accounting rebuilt from the files, which C19 checks against ground truth",
         ],
         needs_shim: true,
-        budget: |t| t.pick(320, 6000),
+        budget: |t| t.pick(320, 4000),
         shards: |_| 16,
         strategy,
         exec,
